@@ -103,6 +103,24 @@ static int check_sig(const unsigned char *bytes, size_t n, const rsig *model, co
 		}
 		vc.docAggrLevel = 0;
 	}
+	/* one verification context that lives as long as the process and is handed every signature in turn (cleaned after every second
+	 * use only): what an earlier verification left in it does not change this verdict */
+	if (rc == KSI_OK && result != NULL) {
+		static KSI_VerificationContext pv;
+		static int pv_ready, pv_uses;
+		KSI_PolicyVerificationResult *r4 = NULL;
+		int rc4;
+		if (!pv_ready) { KSI_VerificationContext_init(&pv, ctx); pv_ready = 1; }
+		pv.signature = sig;
+		rc4 = KSI_SignatureVerifier_verify(KSI_VERIFICATION_POLICY_INTERNAL, &pv, &r4);
+		vf_count("impl_calls", 1);
+		if (rc4 != rc || r4 == NULL || r4->finalResult.resultCode != result->finalResult.resultCode || r4->finalResult.errorCode != result->finalResult.errorCode)
+			vf_fail("verdict-depends-on-context-history", "%s: verdict rc=0x%x result=%d error=0x%x in a fresh verification context, rc=0x%x result=%d error=0x%x in a verification context that has verified other signatures before",
+			        what, rc, (int)result->finalResult.resultCode, (int)result->finalResult.errorCode, rc4, r4 ? (int)r4->finalResult.resultCode : -1, r4 ? (int)r4->finalResult.errorCode : -1);
+		KSI_PolicyVerificationResult_free(r4);
+		pv.signature = NULL;
+		if ((++pv_uses & 1) == 0) KSI_VerificationContext_clean(&pv);
+	}
 	KSI_PolicyVerificationResult_free(result);
 	KSI_VerificationContext_clean(&vc);
 	/* KSI_Signature_parse applies the internal policy at parse time */
